@@ -375,14 +375,17 @@ impl ConstAsImmediateLibfunc {
     ) -> Result<ConstAsImmediateConcreteLibfunc, SpecializationError> {
         let const_type = args_as_single_type(args)?;
         let (ty, _) = extract_const_info(context, const_type)?;
+        // A constant of a zero-sized type has no cells to defer.
+        let ref_info = if context.get_type_info(ty)?.zero_sized {
+            OutputVarReferenceInfo::ZeroSized
+        } else {
+            OutputVarReferenceInfo::Deferred(DeferredOutputKind::Const)
+        };
         Ok(ConstAsImmediateConcreteLibfunc {
             const_type: const_type.clone(),
             signature: LibfuncSignature::new_non_branch(
                 vec![],
-                vec![OutputVarInfo {
-                    ty: ty.clone(),
-                    ref_info: OutputVarReferenceInfo::Deferred(DeferredOutputKind::Const),
-                }],
+                vec![OutputVarInfo { ty: ty.clone(), ref_info }],
                 SierraApChange::Known { new_vars_only: true },
             ),
         })
